@@ -247,6 +247,7 @@ def run(ctx):
     _run_rules(ctx)
     from .. import boundaries
     boundaries.check(ctx, 'C16.RB', 'C16')
+    boundaries.check_inits(ctx, 'C16.RI', 'C16')
     boundaries.check_writes(ctx, 'C16.RW', 'C16')
     boundaries.check_guards(ctx, 'C16.RG', 'C16')
     boundaries.check_calls(ctx, 'C16.RC', 'C16')
